@@ -26,6 +26,7 @@ TParse ==
        IF want.ok /\ ~E.ok THEN Verdict("rejected-but-well-formed")
        ELSE IF ~want.ok /\ E.ok THEN Verdict("accepted-but-syntax-error")
        ELSE IF want.ok /\ want.ast # E.nodes THEN Verdict("tree:" \o ToString(FirstDiff(want.ast, E.nodes)))
+       ELSE IF ~want.ok /\ E.at >= 0 /\ want.pos - 1 # E.at THEN Verdict("error-at:" \o ToString(want.pos - 1) \o ":" \o ToString(E.at))
        ELSE TRUE
 
 TSpec == l = 1 /\ [][TParse]_l
